@@ -258,6 +258,28 @@ example : LegalRun init (demo ++ [.remove 1]) := by decide
 example : ((run init [.push, .push, .push, .remove 1, .tfront 0, .tstep 0, .tnext 0, .tstep 0]).travs 0)
     = { st := .at 2, log := [0, 2] } := by decide
 example : LegalRun init staleNextRun := by decide
+/-- hypotheses of `next_never_removed_partial`: a live cursor is handed its live successor by
+    NextWait, by Next(), and FrontWait hands out the head. -/
+example : let s := run init [.push, .push, .tfront 0, .tstep 0, .tnext 0]
+    (s.travs 0).st = .wantNext 0 none ∧ s.rem 0 = false ∧ ((tstep s 0).travs 0).st = .at 1 := by decide
+example : let s := run init [.push, .push, .tfront 0, .tstep 0]
+    (s.travs 0).st = .at 0 ∧ s.rem 0 = false ∧ (stepR s (.tnextNow 0)).2 = .next (some 1) := by decide
+example : let s := run init [.push, .tfront 0]
+    (s.travs 0).st = .wantFront none ∧ ((tstep s 0).travs 0).st = .at 0 := by decide
+/-- hypotheses of `nil_only_from_removed`: the cursor was the tail and got removed. -/
+example : let s := run init [.push, .tfront 0, .tstep 0, .tnext 0, .remove 0]
+    (s.travs 0).st = .wantNext 0 none ∧ ((tstep s 0).travs 0).st = .fin := by decide
+/-- hypotheses of the FrontWait halves of `no_lost_wakeup` / `wakeup_progress`. -/
+example : let s := run init [.tfront 0, .tstep 0, .push]
+    (s.travs 0).st = .wantFront (some 0) ∧ s.head = some 0 ∧ released s.stale s.closed 0 = true ∧
+    ((tstep (tstep s 0) 0).travs 0).st = .at 0 := by decide
+/-- … and a FrontWait caller holding a REPLACED list wait group (list emptied and refilled). -/
+example : let s := run init [.tfront 0, .tstep 0, .push, .remove 0, .push]
+    (s.travs 0).st = .wantFront (some 0) ∧ s.stale = [true] ∧ s.head = some 1 ∧
+    ((tstep (tstep s 0) 0).travs 0).st = .at 1 := by decide
+/-- hypothesis of `removed_cursor_moves_forward` on a removed element. -/
+example : let s := run init [.push, .push, .push, .remove 1, .remove 2]
+    s.rem 1 = true ∧ (s.elems 1).next = some 2 ∧ s.rem 2 = true := by decide
 example : remaining (run init [.push, .push, .push, .remove 1, .push]) = [0, 2, 3] := by decide
 example : ((run init staleNextRun).travs 0).st = .wantNext 1 none ∧ (run init staleNextRun).rem 1 = true := by
   decide
